@@ -116,8 +116,12 @@ def execute(case: dict[str, Any], abort_at: tuple[int, str] | None, abort_call: 
     budget = case["budget"] if case["variant"] == "budget" else 6
     out: dict[str, Any] = {"codes": [], "exceptions": [], "plans": {}, "step_plan": {}}
 
+    ctx2 = OptimizerContext(evaluator=ev, plugin_manager=manager)  # a second context: its observers belong to plans rooted there
+    for et in EventType:
+        ctx2.add_observer(et, lambda e: ctl.deliver("o2:0", e))
+
     def new_plan(tag: str, parent_tag: str | None = None) -> Plan:
-        plan = Plan(ctx)
+        plan = Plan(ctx2 if (tag == "inner" and case["scenario"] == "nested-own-context") else ctx)
         for k in range(2):
             plan.add_handler("rec/recorder", controller=ctl, tag=f"h:{tag}:{k}")
         out["plans"][tag] = (plan, parent_tag)
@@ -176,6 +180,7 @@ def execute(case: dict[str, Any], abort_at: tuple[int, str] | None, abort_call: 
         inner.add_function(inner_fn)
         outer_step = main.add_step("optimizer")
         out["step_plan"][outer_step] = "main"
+        out["outer_steps"] = {"main": outer_step}
         out["inner_parent_from"] = [(0, "main")]
         run_step(main, outer_step, config=outer_cfg, nested_optimization=inner)
         if scenario == "nested-reused" and not main.aborted:
@@ -183,6 +188,7 @@ def execute(case: dict[str, Any], abort_at: tuple[int, str] | None, abort_call: 
             main2 = new_plan("main2")
             outer2 = main2.add_step("optimizer")
             out["step_plan"][outer2] = "main2"
+            out["outer_steps"]["main2"] = outer2
             out["inner_parent_from"].append((ctl.index + 1, "main2"))
             run_step(main2, outer2, config=outer_cfg, nested_optimization=inner)
         extra = main.add_step("evaluator")
@@ -280,6 +286,12 @@ def check_run(case: dict[str, Any], out: dict[str, Any], aborting: bool, label: 
             if tag == "inner" and out.get("inner_parent_from"):
                 parent = [p for start_idx, p in out["inner_parent_from"] if start_idx <= out["aborted_at"]][-1]
             tag = parent
+        if case["scenario"].startswith("nested"):
+            # the outer step whose run contained the abort was ended by the user abort as well
+            outer = out["outer_steps"][chain[-1]]
+            outer_code = next((c for st, c in codes if st == outer), None)
+            check(outer_code == OptimizerExitCode.USER_ABORT, "outer-exit-code",
+                  f"{label}: the abort arose in plan '{chain[0]}' but the outer optimizer step returned {outer_code!r} instead of USER_ABORT", case)
         for t in chain:
             check(out["plans"][t][0].aborted, "not-latched", f"{label}: plan '{t}' is not marked aborted after the user abort (chain {chain})", case)
         first_abort = next(i for i, (_, c) in enumerate(codes) if c == OptimizerExitCode.USER_ABORT)
@@ -374,7 +386,7 @@ def hypothesis_shard(item: dict[str, Any]) -> Collector:
 
     @st.composite
     def cases(draw: Any) -> dict[str, Any]:  # noqa: ANN401
-        case = default_case(draw(st.sampled_from(["optimizer", "evaluator", "optimizer+evaluator", "evaluator+optimizer", "nested", "nested-reused"])),
+        case = default_case(draw(st.sampled_from(["optimizer", "evaluator", "optimizer+evaluator", "evaluator+optimizer", "nested", "nested-reused", "nested-own-context"])),
                             draw(st.sampled_from(["plain", "failures", "budget"])), draw(st.sampled_from(["slsqp", "nelder-mead"])))
         case["speculative"] = draw(st.booleans())
         case["x0"] = [draw(st.sampled_from([-1.0, 0.0, 0.4, 1.5])), draw(st.sampled_from([-0.3, 0.8]))]
@@ -395,7 +407,7 @@ def hypothesis_shard(item: dict[str, Any]) -> Collector:
 
 def shards(tier: str, seed: int) -> list[dict[str, Any]]:
     items: list[dict[str, Any]] = []
-    for scenario in ("optimizer", "evaluator", "optimizer+evaluator", "evaluator+optimizer", "nested", "nested-reused"):
+    for scenario in ("optimizer", "evaluator", "optimizer+evaluator", "evaluator+optimizer", "nested", "nested-reused", "nested-own-context"):
         for variant in ("plain", "failures", "budget"):
             for method in ("slsqp", "nelder-mead"):
                 for spec in ((False, True) if method == "slsqp" and tier != "quick" else (False,)):
